@@ -395,7 +395,7 @@ func (x apiExec) run(plan Plan, ops []HOp) *histResult {
 			}
 			res.err[i] = tr.AuditdEvent(vlib.APIEvent(plan.Sid[op.K], t, strconv.Itoa(epid), ts, seq, "success"))
 		case opCD:
-			res.err[i] = tr.AuditdEvent(vlib.APIEvent(plan.Sid[op.K], auparse.AUDIT_CRED_DISP, strconv.Itoa(plan.Pid[op.K]), ts, seq, "success"))
+			res.err[i] = tr.AuditdEvent(vlib.APIEvent(plan.Sid[op.K], auparse.AUDIT_CRED_DISP, strconv.Itoa(cdPid(plan.Pid[op.K], i)), ts, seq, "success"))
 		case opNoSess:
 			res.err[i] = tr.AuditdEvent(vlib.APIEvent("", pickType(i), "77", ts, seq, "success"))
 		case opUnset:
@@ -524,7 +524,7 @@ func (rawExec) run(plan Plan, ops []HOp) (*histResult, error) {
 			ok = send(vlib.ExecSpec{TSms: ts, Seq: seq, PID: plan.Pid[op.K] + 10000, Ses: plan.Sid[op.K], Success: "yes",
 				Exe: "/usr/bin/ls", Args: []string{"ls", "-l", fmt.Sprintf("/tmp/%d", i)}, Paths: []string{"/usr/bin/ls"}, Cwd: "/root"}.Lines()...)
 		case opCD:
-			ok = send(vlib.AuUser("CRED_DISP", ts, seq, plan.Pid[op.K], plan.Sid[op.K], "PAM:setcred", "success"))
+			ok = send(vlib.AuUser("CRED_DISP", ts, seq, cdPid(plan.Pid[op.K], i), plan.Sid[op.K], "PAM:setcred", "success"))
 		case opNoSess:
 			ok = send(vlib.AuUser("USER_CMD", ts, seq, 77, "", "PAM:x", "success"))
 		case opUnset:
